@@ -253,7 +253,7 @@ def _compare(spec, got, exp, err, sig, feats, what):
     d = np.abs(got - exp)
     if not np.all(np.isfinite(got)) or d.max() > TOL * scale + 10 * err:
         i = np.unravel_index(np.argmax(d), d.shape)
-        known_class = any(feats.get(k) for k in ("phaseshift_cross_term", "ctrl_rotation_cov", "qfi_expanded_gate"))
+        known_class = any(feats.get(k) for k in ("phaseshift_cross_term", "ctrl_rotation_cov", "qfi_expanded_gate", "adjoint_jax_multipar"))
         if not known_class and not fresh.confirm(ID, spec, ("value", sig.split(":")[0])):
             raise Reject("violation not reproduced in a fresh process (state left by an earlier case)")
         raise Viol("value", f"{sig} {what}: g[{i[0]},{i[1]}] = {got[i]:.9g}, reference {exp[i]:.9g}; got={np.round(got, 6).tolist()} ref={np.round(exp, 6).tolist()}",
@@ -264,7 +264,11 @@ def _trainable_names(prog):
     return {o["op"] for o in prog["ops"] if any(not hybrid.is_const(e) for e in hybrid.op_exprs(o))}
 
 
-def _finding_features(prog, fn, approx, allow_nonunitary):
+# gates that adjoint_metric_tensor / metric_tensor expand (several parameters or a generator with several terms)
+EXPANDED = {"Rot", "U2", "U3", "CRot", "IsingXY", "SingleExcitation"}
+
+
+def _finding_features(prog, fn, approx, allow_nonunitary, iface=None):
     names = _trainable_names(prog)
     mt = fn == "metric_tensor"
     phase = bool(names & {"PhaseShift", "U1", "U2", "U3"})  # U1/U2/U3 expand into PhaseShift gates
@@ -275,7 +279,9 @@ def _finding_features(prog, fn, approx, allow_nonunitary):
         # F15: cov_matrix ignores the wire order of observables; generators containing a projector are not permutation symmetric
         "ctrl_rotation_cov": mt and (approx is not None or allow_nonunitary) and projector,
         # F16: quantum_fisher on a QNode with a multi-parameter gate (its expansion changes the parameter set)
-        "qfi_expanded_gate": fn == "quantum_fisher" and bool(names & {"Rot", "U2", "U3", "CRot"}),
+        "qfi_expanded_gate": fn == "quantum_fisher" and bool(names & EXPANDED),
+        # F17: adjoint_metric_tensor under jax leaves a trainable multi-parameter gate (Rot) unexpanded
+        "adjoint_jax_multipar": fn in ("adjoint_metric_tensor", "quantum_fisher") and iface == "jax" and bool(names & {"Rot", "U2", "U3", "CRot"}),
     }
 
 
@@ -357,7 +363,7 @@ def _check_qnode(spec):
     circuit = base.build_qnode(prog, cfg)
     x = base._to_iface(hybrid.arg_values(prog)[0], iface)
     feats = {"kind": "qnode", "fn": fn, "approx": approx or "full", "iface": iface, "allow_nonunitary": spec["allow_nonunitary"],
-             **_finding_features(prog, fn, approx, spec["allow_nonunitary"])}
+             **_finding_features(prog, fn, approx, spec["allow_nonunitary"], iface)}
     sig = f"{fn}:{approx or 'full'}:{iface}"
 
     def run():
@@ -395,6 +401,8 @@ def _check_qnode(spec):
 
 
 def check(spec):
+    if not trainable_ops(spec["prog"]):
+        raise Reject("no trainable gate parameter")
     return _check_tape(spec) if spec["kind"] == "tape" else _check_qnode(spec)
 
 
